@@ -4,7 +4,7 @@ import numpy as np
 from vk.specs import tree as T
 from vk.specs import treeuniv as TU
 from vk.symx import shims as SH
-from vk.symx.harness import decide, decide_true
+from vk.symx.harness import decide, decide_true, native_cond
 from vk.symx.poly import Poly, VarFactory
 
 
@@ -21,6 +21,16 @@ def rdm_ref(v, dims, sites):
     m = np.moveaxis(np.asarray(v, dtype=object).reshape(dims), sites, list(range(k))).reshape(int(np.prod([dims[s] for s in sites])), -1)
     mc = np.array([[Poly.coerce(x).conjugate() for x in row] for row in m], dtype=object)
     return m.dot(mc.T)
+
+
+def complexify(ttns, rng):
+    """float copy with random phases on the non-zero entries (same zero pattern, hence same labels)"""
+    c = ttns.to_complex()
+    for node in c.node_list:
+        t = np.asarray(node.tensor)
+        ph = np.exp(2j * np.pi * rng.random(t.shape))
+        node.tensor = t * ph
+    return c
 
 
 def prove(run):
@@ -54,27 +64,80 @@ def prove(run):
                 Hs = SH.const_ttno(H)
                 case = dict(TU.describe_tree(bt), flavour=flavour, seed=seed, shape=repr(su["shape"]), sector=q, variables=vf.n)
                 tag = f"{flavour}:{su['shape']!r}"
+                nb = len(order)
+
+                class KS:   # exact helpers
+                    vdot = staticmethod(vdot)
+                    rdm = staticmethod(rdm_ref)
+
+                    @staticmethod
+                    def real_if_real(x):
+                        return x if x.imag else x.real
+
+                class KN:   # float helpers for the native replay
+                    vdot = staticmethod(lambda x, y: np.vdot(x, y))
+
+                    @staticmethod
+                    def rdm(v, dims_, sites):
+                        k = len(sites)
+                        m = np.moveaxis(np.asarray(v).reshape(dims_), sites, list(range(k))).reshape(int(np.prod([dims_[s_] for s_ in sites])), -1)
+                        return m @ m.conj().T
+
+                    @staticmethod
+                    def real_if_real(x):
+                        return x
+
+                def dn(x):
+                    return T.dense_ttns(x, order)
+                # every identity is a function of (a, b, H, K): evaluated exactly on the symbolic tensors, and - when refuted - natively on float tensors
+                idents = [
+                    ("post:TTNS.todense:independent_contraction", "TTNS.todense", lambda a_, b_, H_, K: (np.asarray(a_.todense(order)).ravel(), dn(a_))),
+                    ("post:TTNS.add:dense_sum", "TTNS.add", lambda a_, b_, H_, K: (dn(a_.add(b_)), dn(a_) + dn(b_))),
+                    ("frame:TTNS.add:operands", "TTNS.add", lambda a_, b_, H_, K: (lambda va_, vb_, c_: (np.concatenate([dn(a_), dn(b_)]), np.concatenate([va_, vb_])))(dn(a_), dn(b_), a_.add(b_))),
+                    ("post:TTNS.scale:dense_scale", "TTNS.scale", lambda a_, b_, H_, K: (dn(a_.scale(-0.5)), dn(a_) * (-0.5))),
+                    ("frame:TTNS.scale:operand", "TTNS.scale", lambda a_, b_, H_, K: (lambda va_, c_: (dn(a_), va_))(dn(a_), a_.scale(-0.5))),
+                    ("post:TTNS.copy:mutating_the_copy_leaves_the_original", "TTNS.copy", lambda a_, b_, H_, K: (lambda va_, c_: (dn(a_), va_))(dn(a_), a_.copy().scale(3, inplace=True))),
+                    ("post:TTNO.apply:dense_product", "TTNO.apply", lambda a_, b_, H_, K: (dn(H_.apply(a_)), T.dense_ttno(H_, order).dot(dn(a_)))),
+                    ("frame:TTNO.apply:operand", "TTNO.apply", lambda a_, b_, H_, K: (lambda va_, c_: (dn(a_), va_))(dn(a_), H_.apply(a_))),
+                    ("post:TTNS.expectation:sesquilinear_form", "TTNS.expectation",
+                     lambda a_, b_, H_, K: (a_.expectation(H_), K.real_if_real(K.vdot(dn(a_), T.dense_ttno(H_, order).dot(dn(a_)))))),
+                ]
+                for bi in range(nb):
+                    idents.append((f"post:TTNS.calc_1dof_rdm:partial_trace[{bi}]", "TTNS.calc_1dof_rdm",
+                                   (lambda bi_: lambda a_, b_, H_, K: (np.asarray(a_.calc_1dof_rdm()[order[bi_].dofs[0]]), K.rdm(dn(a_), dims, [bi_])))(bi)))
+                a0c, b0c = complexify(a0, rng), complexify(b0, rng)
+
+                def native(fun):
+                    def f():
+                        lhs, rhs = fun(a0c.copy(), b0c.copy(), H, KN)
+                        lhs, rhs = np.asarray(lhs, dtype=complex), np.asarray(rhs, dtype=complex)
+                        err = float(np.abs(lhs - rhs).max()) if lhs.shape == rhs.shape else float("inf")
+                        return err > 1e-9 * max(1.0, float(np.abs(rhs).max())), {
+                            "numeric_error_on_random_complex_values": err,
+                            "how": "vk.specs.treeuniv.setup(seed, n_nodes, flavour) rebuilds the tree and H; the states are TU.random_ttns(bt, q, 2, rng) x2 with random "
+                                   "phases (props.C11_sym.complexify); the identity is evaluated on the real float code"}
+                    return f
                 with SH.symbolic_mode_tree():
+                    for oid, fn, fun in idents:
+                        try:
+                            lhs, rhs = fun(a, b, Hs, KS)
+                        except Exception as ex:
+                            decide_true(run, f"{oid}:total@{tag}", fn, False, f"the code under test raised on symbolic tensors: {type(ex).__name__}: {ex}", case)
+                            continue
+                        decide(run, f"{oid}@{tag}", fn, np.asarray(lhs, dtype=object) if not isinstance(lhs, Poly) else lhs,
+                               np.asarray(rhs, dtype=object) if not isinstance(rhs, Poly) else rhs, case, numeric_replay=native(fun))
                     try:
-                        va, vb = T.dense_ttns(a, order), T.dense_ttns(b, order)
-                        decide(run, f"post:TTNS.todense:independent_contraction@{tag}", "TTNS.todense", np.asarray(a.todense(order), dtype=object).ravel(), va, case)
                         c = a.add(b)
-                        decide(run, f"post:TTNS.add:dense_sum@{tag}", "TTNS.add", T.dense_ttns(c, order), va + vb, case)
-                        decide_true(run, f"post:TTNS.add:qn_valid@{tag}", "TTNS.add", not T.qnv_tree_violations(c), f"{T.qnv_tree_violations(c)[:1]}", case)
-                        decide(run, f"frame:TTNS.add:operands@{tag}", "TTNS.add", np.concatenate([T.dense_ttns(a, order), T.dense_ttns(b, order)]), np.concatenate([va, vb]), case)
-                        decide(run, f"post:TTNS.scale:dense_scale@{tag}", "TTNS.scale", T.dense_ttns(a.scale(-0.5), order), va * (-0.5), case)
-                        Hdd = T.dense_ttno(Hs, order)
+                        decide_true(run, f"post:TTNS.add:qn_valid@{tag}", "TTNS.add", not T.qnv_tree_violations(c), f"{T.qnv_tree_violations(c)[:1]}", case,
+                                    numeric_replay=native_cond(lambda: (lambda v_: (not v_, v_[:1]))(T.qnv_tree_violations(a0c.copy().add(b0c.copy()))), "as for the identities of this case"))
                         r = Hs.apply(a)
-                        decide(run, f"post:TTNO.apply:dense_product@{tag}", "TTNO.apply", T.dense_ttns(r, order), Hdd.dot(va), case)
-                        decide_true(run, f"post:TTNO.apply:qn_valid@{tag}", "TTNO.apply", not T.qnv_tree_violations(r), f"{T.qnv_tree_violations(r)[:1]}", case)
-                        e = a.expectation(Hs)
-                        full = vdot(va, Hdd.dot(va))
-                        decide(run, f"post:TTNS.expectation:sesquilinear_form@{tag}", "TTNS.expectation", e, full if full.imag else full.real, case)
+                        decide_true(run, f"post:TTNO.apply:qn_valid@{tag}", "TTNO.apply", not T.qnv_tree_violations(r), f"{T.qnv_tree_violations(r)[:1]}", case,
+                                    numeric_replay=native_cond(lambda: (lambda v_: (not v_, v_[:1]))(T.qnv_tree_violations(H.apply(a0c.copy()))), "as for the identities of this case"))
+                        a.expectation(Hs)
                         decide_true(run, f"frame:TTNS.expectation:roots_restored@{tag}", "TTNS.expectation",
-                                    a.root.parent is None and Hs.root.parent is None and bt.root.parent is None, "a temporary parent is still attached to a root", case)
-                        r1 = a.calc_1dof_rdm()
-                        for bi, bb in enumerate(order):
-                            decide(run, f"post:TTNS.calc_1dof_rdm:partial_trace[{bi}]@{tag}", "TTNS.calc_1dof_rdm", np.asarray(r1[bb.dofs[0]], dtype=object), rdm_ref(va, dims, [bi]), case)
+                                    a.root.parent is None and Hs.root.parent is None and bt.root.parent is None, "a temporary parent is still attached to a root", case,
+                                    numeric_replay=native_cond(lambda: (lambda x: (x.expectation(H), (x.root.parent is None and H.root.parent is None and bt.root.parent is None, "parents"))[1])(a0c.copy()),
+                                                               "as for the identities of this case"))
                     except Exception as ex:
                         decide_true(run, f"post:TTNS:total@{tag}", "TTNS (symbolic run)", False, f"the code under test raised on symbolic tensors: {type(ex).__name__}: {ex}", case)
     run.extra.setdefault("symx", {})["C11"] = {"tree_cases": ncase, "shims": SH.TREE_SHIMS,
